@@ -1,0 +1,112 @@
+// Verification-only instrumentation, compiled only with the `verif-hooks` cargo feature.
+//
+// Provides a drop-in replacement for `std::sync::Mutex` (as far as `chunker.rs` uses it) which
+// reports lock acquisition and release to a per-thread callback, so that an external test
+// harness can own the interleaving of the threads using a streaming body. With no callback
+// registered on the current thread it behaves exactly like `std::sync::Mutex`.
+
+#![allow(missing_docs)]
+
+use std::cell::RefCell;
+use std::ops::{Deref, DerefMut};
+use std::sync::{LockResult, PoisonError, TryLockError};
+
+/// What the instrumented mutex is about to do / has just done on the calling thread.
+#[derive(Copy, Clone, Debug, PartialEq, Eq)]
+pub enum Event {
+    /// About to try to acquire the lock (not held by this thread).
+    BeforeLock,
+    /// The lock was found held by another thread; will be retried after the callback returns.
+    Contended,
+    /// The lock has just been acquired by this thread.
+    Acquired,
+    /// The lock has just been released by this thread.
+    Released,
+}
+
+type Callback = Box<dyn FnMut(Event)>;
+
+thread_local! {
+    static CALLBACK: RefCell<Option<Callback>> = const { RefCell::new(None) };
+}
+
+/// Registers (or with `None` removes) the calling thread's callback; returns the previous one.
+pub fn set_thread_callback(cb: Option<Callback>) -> Option<Callback> {
+    CALLBACK.with(|c| std::mem::replace(&mut *c.borrow_mut(), cb))
+}
+
+/// Calls the thread's callback if there is one (and it isn't already running); returns whether
+/// there is one.
+fn emit(ev: Event) -> bool {
+    CALLBACK
+        .try_with(|c| match c.try_borrow_mut() {
+            Ok(mut g) => match g.as_mut() {
+                Some(cb) => {
+                    cb(ev);
+                    true
+                }
+                None => false,
+            },
+            Err(_) => true,
+        })
+        .unwrap_or(false)
+}
+
+pub struct Mutex<T>(std::sync::Mutex<T>);
+
+pub struct MutexGuard<'a, T>(Option<std::sync::MutexGuard<'a, T>>);
+
+impl<T> Mutex<T> {
+    pub fn new(t: T) -> Self {
+        Mutex(std::sync::Mutex::new(t))
+    }
+
+    pub fn lock(&self) -> LockResult<MutexGuard<'_, T>> {
+        if !emit(Event::BeforeLock) {
+            // No callback on this thread: plain blocking lock.
+            return match self.0.lock() {
+                Ok(g) => Ok(MutexGuard(Some(g))),
+                Err(p) => Err(PoisonError::new(MutexGuard(Some(p.into_inner())))),
+            };
+        }
+        loop {
+            match self.0.try_lock() {
+                Ok(g) => {
+                    emit(Event::Acquired);
+                    return Ok(MutexGuard(Some(g)));
+                }
+                Err(TryLockError::Poisoned(p)) => {
+                    emit(Event::Acquired);
+                    return Err(PoisonError::new(MutexGuard(Some(p.into_inner()))));
+                }
+                Err(TryLockError::WouldBlock) => {
+                    if !emit(Event::Contended) {
+                        std::thread::yield_now();
+                    }
+                }
+            }
+        }
+    }
+}
+
+impl<T> Deref for MutexGuard<'_, T> {
+    type Target = T;
+    fn deref(&self) -> &T {
+        self.0.as_ref().expect("guard is live")
+    }
+}
+
+impl<T> DerefMut for MutexGuard<'_, T> {
+    fn deref_mut(&mut self) -> &mut T {
+        self.0.as_mut().expect("guard is live")
+    }
+}
+
+impl<T> Drop for MutexGuard<'_, T> {
+    fn drop(&mut self) {
+        drop(self.0.take());
+        if !std::thread::panicking() {
+            emit(Event::Released);
+        }
+    }
+}
